@@ -87,7 +87,14 @@ func SaveYAML(path string, config *config.Config) error {
 		return fmt.Errorf("failed to marshal config: %w", err)
 	}
 
-	if err := os.WriteFile(path, data, 0644); err != nil {
+	// Write to a temporary file and rename it into place so that a failed or
+	// interrupted write never leaves a truncated startup config behind.
+	tmp := path + ".tmp"
+	if err := os.WriteFile(tmp, data, 0644); err != nil {
+		return fmt.Errorf("failed to write config file: %w", err)
+	}
+	if err := os.Rename(tmp, path); err != nil {
+		os.Remove(tmp)
 		return fmt.Errorf("failed to write config file: %w", err)
 	}
 
